@@ -199,7 +199,11 @@ impl TcpFlow {
 
         let mut sorted_data = data.clone();
 
-        sorted_data.sort_by_key(|tcp_data| tcp_data.sequence);
+        // Sequence numbers live in a 32-bit space that wraps around: order the segments by their
+        // distance from the first one that was stored (signed, so earlier ones sort before it),
+        // not by their raw value
+        let origin = data.first().map_or(0, |tcp_data| tcp_data.sequence);
+        sorted_data.sort_by_key(|tcp_data| tcp_data.sequence.wrapping_sub(origin) as i32);
 
         let mut full_data = Vec::new();
         for tcp_data in sorted_data {
